@@ -838,6 +838,67 @@ def gen_c16_case(rng, kind, maxlen):
     return case
 
 
+def gen_c16_many(rng, kind):
+    """a long-lived first subscriber and 66-140 attach/detach cycles of short-lived ones on the same Observable: subscription
+    ids far beyond any small fixed capacity, the first one alive all the time"""
+    r = ObsvRef()
+    case = []
+
+    def emit(line):
+        r.step(line)
+        case.append(line)
+
+    def fresh(i):
+        if kind == "str":
+            return "'" + "abc"[i % 3] * (1 + i % 5)
+        if kind == "long":
+            return str(i % 17 - 8)
+        return str((i % 23 - 11) * (SCALE >> (i % 4)) * 4)
+    emit("obsv new %s %s" % (kind, fresh(1)))
+    emit("obsv subscribe")
+    n = 66 + rng.below(75)
+    keep = []
+    for i in range(n):
+        emit("obsv subscribe")
+        h = len(r.handles) - 1
+        emit("obsv assign " + fresh(i + 2))
+        if rng.chance(1, 9):
+            keep.append(h)                 # a few stay subscribed
+        else:
+            emit("obsv unsub %d" % h)
+        if i in (63, 64, 65, 127, 128):
+            emit("obsv assign " + fresh(i + 5))
+    for h in keep:
+        emit("obsv unsub %d" % h)
+    emit("obsv assign " + fresh(3))
+    emit("obsv assign " + fresh(4))
+    emit("obsv unsub 0")
+    emit("obsv assign " + fresh(6))
+    emit("obsv value")
+    return case
+
+
+def gen_c05_many(rng, sig):
+    """the same for Subject: ids 0 … 140 over the lifetime of one Subject, the first observer alive throughout"""
+    b = CaseBuilder(sig)
+    b.emit("subj lib 0 -")
+    b.emit("subj new 1")
+    b.emit("subj sub 1 %d 0 -" % rng.below(6))
+    n = 66 + rng.below(75)
+    for i in range(n):
+        b.emit("subj sub 1 %d 0 -" % rng.below(6))
+        h = len(b.ref.handles) - 1
+        if i % 7 == 0 or i in (62, 63, 64, 65, 127, 128):
+            b.emit("subj notify 1 0 %s" % gen_arg(rng, sig))
+        if not rng.chance(1, 9):
+            b.emit("subj %s %d" % (rng.pick(["unsubH", "unsubH", "unsubS 1"]), h))
+    b.emit("subj notify 1 0 %s" % gen_arg(rng, sig))
+    b.emit("subj unsubH 0")
+    b.emit("subj notify 1 0 %s" % gen_arg(rng, sig))
+    finish_case(b)
+    return b.case
+
+
 # ====================================================================== running
 
 def build_all(res, want_subj, want_obsv):
@@ -1071,6 +1132,8 @@ def tie_subject(prop, tier, seed, res):
             cases.append(gen_c10_random(rng, i % NSIG, 4, 3))
         for i in range(n // 10):
             cases.append(gen_cross_case(rng, i % NSIG))
+        for i in range(10 if tier == "quick" else 100):
+            cases.append(gen_c05_many(rng, i % NSIG))
     else:
         cases += gen_c10_exhaustive(tier)
         nex = len(cases) - ncorpus
@@ -1134,6 +1197,8 @@ def tie_obsv(prop, tier, seed, res):
     kinds = ["long", "dy", "dc", "str"]
     for i in range(n):
         cases.append(gen_c16_case(rng, kinds[i % len(kinds)], 30 if tier == "quick" else 60))
+    for i in range(12 if tier == "quick" else 120):
+        cases.append(gen_c16_many(rng, kinds[i % len(kinds)]))
     exp = [obsv_expected(c) for c in cases]
     out = [None, None]
 
